@@ -1,5 +1,6 @@
 """Shared evaluation for the block-codec properties C01, C02, C05, C06, C12:
 run one generated block through the implementation and through the extracted model."""
+import copy
 import io
 import json
 import os
@@ -452,6 +453,145 @@ def check_layouts(chk, pid, n):
             elif i["dec"] != v:
                 chk.violation("%s fmt=%d built from %s arrays: decode(encode(b)) differs from b at %s" %
                               (kind, fmt, lay, fdiff(i["dec"], v)), case, True)
+
+
+# ------------------------------------------------------------------ a decoded recording, trimmed and stored again
+TRIMS = (("front", lambda n: slice(min(3, n - 1), None)), ("both ends", lambda n: slice(1, max(2, n - 2))), ("every 2nd", lambda n: slice(None, None, 2)),
+         ("every 3rd from 1", lambda n: slice(1, None, 3)), ("reversed", lambda n: slice(None, None, -1)), ("tail", lambda n: slice(n // 2, None)))
+FRAME_SLOTS = {"D3": (0, 9, 1), "EM": (3, 5, 1), "FT": (3, 8, 1), "PD": (3, 5, None)}     # where nFrames and the items' frames sit in v
+
+
+def retake(kind, fmt, o, sl, n2):
+    """a new block with the frames o's items have under the slice sl — its items constructed from VIEWS of o's arrays
+    (what `Track(label, old.data[5:])` is), everything else taken over"""
+    if kind == "D3":
+        from basictdf.tdfData3D import Data3D, MarkerTrack
+        d = Data3D(frequency=o.frequency, nFrames=n2, volume=o.volume, rotationMatrix=o.rotationMatrix,
+                   translationVector=o.translationVector, startTime=o.startTime, flag=o.flag, format=o.format)
+        if fmt == 1:
+            d.links = o.links
+        for t in o._tracks:
+            d.add_track(MarkerTrack(t.label, t.data[sl]))
+        return d
+    if kind == "EM":
+        from basictdf.tdfEMG import EMG, EMGTrack
+        e = EMG(frequency=o.frequency, nSamples=n2, startTime=o.startTime, format=o.format)
+        for ch, t in zip(o._emgMap, o._signals):
+            e.addSignal(EMGTrack(t.label, t.data[sl]), channel=int(ch))
+        return e
+    if kind == "FT":
+        from basictdf.tdfForce3D import ForceTorque3D, ForceTorqueTrack
+        f = ForceTorque3D(frequency=o.frequency, nFrames=n2, volume=o.volume, rotationMatrix=o.rotationMatrix,
+                          translationVector=o.translationVector, startTime=o.startTime, format=o.format)
+        for t in o._tracks:
+            f.add_track(ForceTorqueTrack(t.label, t.application_point[sl], t.force[sl], t.torque[sl]))
+        return f
+    from basictdf.tdfForcePlatformsData import ForcePlatformData, ForcePlatformsDataBlock
+    b = ForcePlatformsDataBlock(start_time=o.start_time, frequency=o.frequency, n_frames=n2, format=o.format)
+    for ch, pl in zip(o._plat_map, o._platforms):
+        b.add_platform(ForcePlatformData(pl.application_point[sl], pl.force[sl], pl.torque[sl]), channel=int(ch))
+    return b
+
+
+def check_trimmed(chk, pid, n):
+    """pid in C01 / C02 / C05 / C06 for a recording that was DECODED, cut down (front, both ends, every k-th frame,
+    reversed) and stored again — the new items are made from views of the decoded arrays; and the same with the source
+    block freshly constructed instead of decoded.  The model side is simply the value with its frame lists sliced."""
+    rng = common.rng_for(chk.seed, pid, "trimmed")
+    cases = []
+    for i in range(n):
+        kind = ("PD", "FT", "D3", "EM")[i % 4]
+        fmt, v = blocks.gen(kind, rng, big=3, nframes=rng.choice((6, 9, 12, 19)))
+        nslot, islot, fslot = FRAME_SLOTS[kind]
+        if not v[islot]:
+            continue
+        nfr = v[nslot]
+        name, mk = TRIMS[(i // 4) % len(TRIMS)]
+        sl = mk(nfr)
+        v2 = copy.deepcopy(v)
+        for it in v2[islot]:
+            if fslot is None:
+                it[:] = it[sl]
+            else:
+                it[fslot] = it[fslot][sl]
+        first = v2[islot][0] if fslot is None else v2[islot][0][fslot]
+        v2[nslot] = len(first)
+        if v2[nslot] == 0:
+            continue
+        cases.append((kind, fmt, v, v2, name, sl, "decoded" if (i // 24) % 2 == 0 else "constructed"))
+    mres = model_eval([(k, f, v2) for k, f, v, v2, nm, sl, src in cases], want=("wfb", "enc", "size"))
+    for (kind, fmt, v, v2, name, sl, src), m in zip(cases, mres):
+        chk.count("recording %s, cut (%s), stored again" % (src, name))
+        chk.note_case((kind, fmt, v, name, src), blocks.nontrivial(kind, v2))
+        case = {"kind": kind, "fmt": fmt, "v": v2, "how": "items made from views [%s] of the arrays of a %s block" % (name, src), "source_v": v}
+        if not m["wfb"]:
+            raise RuntimeError("generator produced an invalid block: " + blocks.describe(kind, fmt, v2))
+        try:
+            o = blocks.build(kind, fmt, v)
+            if src == "decoded":
+                o, _n = blocks.impl_build(kind, fmt, blocks.impl_write(o), TRAILER)
+            o2 = retake(kind, fmt, o, sl, v2[FRAME_SLOTS[kind][0]])
+        except Exception as e:
+            chk.violation("%s: a %s recording cut to [%s] cannot be made into a block: %s" % (kind, src, name, common.exc_info(e)), case, True)
+            continue
+        what = "%s fmt=%d, %s recording cut to [%s] and stored again" % (kind, fmt, src, name)
+        try:
+            had = blocks.extract(kind, fmt, o2)
+            nb = int(o2.nBytes)
+            b = blocks.impl_write(o2)
+        except Exception as e:
+            chk.violation("%s: cannot be encoded: %s" % (what, common.exc_info(e)), case, True)
+            continue
+        if had != v2:
+            chk.violation("%s: generator problem, the block does not hold the cut frames at %s" % (what, fdiff(had, v2)), case, False)
+            continue
+        i = impl_decode(kind, fmt, b)
+        if pid == "C02":
+            if not (nb == len(b) == i.get("consumed")):
+                chk.violation("%s: nBytes=%r, bytes written=%d, bytes consumed=%r" % (what, nb, len(b), i.get("consumed")), case, True)
+        elif pid == "C06":
+            if b != m["enc"]:
+                k = next((j for j, (x, y) in enumerate(zip(b, m["enc"])) if x != y), min(len(b), len(m["enc"])))
+                chk.violation("%s: bytes written differ from the layout-driven encoder at offset %d (%d vs %d bytes)" % (what, k, len(b), len(m["enc"])), case, True)
+        else:
+            if i.get("dec") is None:
+                chk.violation("%s: own encoding cannot be decoded: %s" % (what, i.get("dec_exc")), case, True)
+            elif i["dec"] != v2:
+                chk.violation("%s: decode(encode(b)) differs from b at %s" % (what, fdiff(i["dec"], v2)), case, True)
+            elif pid == "C05" and b != m["enc"]:
+                chk.violation("%s: the stored runs / samples differ from Chunks.v's" % what, dict(case, correspondence="enc"), False)
+
+
+def check_stray_attributes(chk, pid, n):
+    """pid in C01 / C02 / C06 on blocks that carry something their FORMAT does not store: a Data3D of a link-less format
+    whose `links` attribute is set (by the caller, or left over from the format it was read in).  The value — and so
+    the model side — is that of the block without them."""
+    rng = common.rng_for(chk.seed, pid, "stray")
+    cases = [blocks.gen("D3", rng, fmt=2, big=4) for _ in range(n)]
+    mres = model_eval([("D3", f, v) for f, v in cases], want=("wfb", "enc", "size"))
+    for j, ((fmt, v), m) in enumerate(zip(cases, mres)):
+        k = 1 + j % 3
+        chk.count("links set on a block of a link-less format")
+        chk.note_case(("stray links", fmt, v, k), blocks.nontrivial("D3", v))
+        case = {"kind": "D3", "fmt": fmt, "v": v, "how": "block.links set to %d link(s) although the format stores none" % k}
+        blocks.STRAY_LINKS = k
+        try:
+            i = impl_roundtrip("D3", fmt, v)
+        finally:
+            blocks.STRAY_LINKS = 0
+        what = "D3 fmt=%d with %d link(s) the format does not store" % (fmt, k)
+        if "build_err" in i or i.get("enc") is None:
+            chk.violation("%s: cannot be built / encoded: %s" % (what, i.get("build_err") or i.get("enc_exc")), case, True)
+        elif pid == "C02":
+            if not (i["nbytes"] == len(i["enc"]) == i.get("consumed")):
+                chk.violation("%s: nBytes=%r, bytes written=%d, bytes consumed=%r" % (what, i["nbytes"], len(i["enc"]), i.get("consumed")), case, True)
+        elif pid == "C06":
+            if i["enc"] != m["enc"]:
+                chk.violation("%s: bytes written differ from the layout-driven encoder" % what, case, True)
+        elif i.get("dec") != v:
+            chk.violation("%s: decode(encode(b)) differs from b at %s" % (what, fdiff(i.get("dec"), v) if i.get("dec") else i.get("dec_exc")), case, True)
+        if chk.n_found() >= 3:
+            return
 
 
 # ------------------------------------------------------------------ layout-conformant but not canonical
